@@ -57,8 +57,15 @@ def gen_best_table(rng):
 def mutate_settings(rng, c):
     """-> (c2, kind); kind 'same' = a rewrite that must not change the meaning, 'diff' = a one-field change"""
     c2 = json.loads(json.dumps(c))
-    choices = ['perm-excl', 'perm-conns', 'none-vs-empty', 'node', 'rep', 'excl', 'par', 'pattern', 'pattern-order', 'swap-side']
+    choices = ['perm-excl', 'perm-conns', 'none-vs-empty', 'node', 'rep', 'excl', 'par', 'par-default', 'par-default', 'pattern',
+               'pattern-order', 'swap-side']
     k = rng.choice(choices)
+    if k == 'par-default' and c2['par'] is None:
+        # the explicit value that equals the limit derived when none is given: not the same settings (with existence patterns the
+        # derived limit follows the nodes that are present, an explicit one does not)
+        finite = [max(spec[1]) for side in ('src', 'tgt') for spec in c2[side] if spec[0] == 'list' and spec[1]]
+        c2['par'] = max([2] + finite)
+        return c2, 'diff'
     if k == 'perm-excl' and len(c2['excl']) >= 2:
         c2['excl'] = list(reversed(c2['excl']))
         return c2, 'same'
@@ -108,7 +115,7 @@ def mutate_settings(rng, c):
 
 def batches(tier, seed):
     rng = rng_for(seed, 'C12')
-    n_sel, n_tiny, n_best, n_cache = (70, 6, 40, 36) if tier == 'quick' else (900, 60, 400, 420)
+    n_sel, n_tiny, n_best, n_cache = (70, 6, 40, 80) if tier == 'quick' else (900, 60, 400, 900)
     cases = []
     for i in range(n_sel):
         c = matcase.gen(rng, max_src=2, max_tgt=3, overrides=rng.random() < 0.3) if rng.random() < 0.7 else C10.gen_pattern_settings(rng)
@@ -442,6 +449,7 @@ def _run_cache(case):
 
 
 def _run_cache_inner(case):
+    import numpy as np
     from adsg_core.optimization.assign_enc.selector import EncoderSelector
     from adsg_core.optimization.assign_enc.matrix import AggregateAssignmentMatrixGenerator as Gen
     a, b = _core(case), case['_other']
@@ -482,15 +490,27 @@ def _run_cache_inner(case):
                 key_other = out.stdout.split()[1]
                 if key_other != sa.get_cache_key():
                     tags.append('xproc-key-differs')
-        ops = ['get-cache', 'get-cache', 'get-nocache', 'reset', 'get-cache']
+        ops = ['get-cache', 'get-cache', 'get-nocache', 'reset', 'get-cache', 'iter-one-pattern']
         hist = [(hist_rng.choice(['a', 'b']), hist_rng.choice(ops)) for _ in range(7)]
         hist = [('a', 'get-cache'), ('b', 'get-cache'), ('a', 'get-cache')] + hist
+        if hist_rng.random() < 0.5:
+            hist = [('a', 'iter-one-pattern')] + hist          # a filtered iteration on cold caches comes first
         for who, op in hist:
             c = a if who == 'a' else b
             s, p = matcase.build(c)
             if op == 'reset':
                 EncoderSelector(s).reset_cache()
                 Gen(s).reset_agg_matrix_cache()
+                continue
+            if op == 'iter-one-pattern':
+                ex = p[hist_rng.randrange(len(p))]
+                try:
+                    got = sorted(tuple(map(tuple, np.array(m).astype(int).tolist())) for m, _ in Gen(s).iter_matrices(existence=ex))
+                except Exception as e:
+                    return {'fail': {'clause': 'cached-call-raises:%s' % type(e).__name__, 'detail': '%s %s: %s' % (who, op, e)}, 'tags': tags}
+                want = exp[who][0][p.index(ex)] or []
+                if got != want:
+                    return {'fail': {'clause': 'matrix-cache-not-transparent', 'detail': 'history %s; iterating one pattern gave %d matrices, a fresh computation %d' % (hist, len(got), len(want))}, 'tags': tags}
                 continue
             use = op == 'get-cache'
             try:
